@@ -6,6 +6,7 @@ import Driver.Sut.MVReg
 import Driver.Sut.Ident
 import Driver.Sut.GList
 import Driver.Sut.Map
+import Driver.Sut.Merkle
 /-! Line-protocol driver: reads a command script on stdin, prints the model's canonical observation
 (and, after ` | `, the value of the specification functions) for every command. -/
 open Driver
@@ -21,6 +22,7 @@ def newCase (ty : String) (n : Nat) : Option Machine :=
   | "map_mvreg" => some (Machine.mk' mapMVOps n)
   | "map_orswot" => some (Machine.mk' mapOROps n)
   | "map_map_mvreg" => some (Machine.mk' mapMapMVOps n)
+  | "merkle" => some (Machine.mk' merkleOps n)
   | "gcounter" => some (Machine.mk' gcounterOps n)
   | "pncounter" => some (Machine.mk' pncounterOps n)
   | "gset" => some (Machine.mk' gsetOps n)
